@@ -219,7 +219,24 @@ def reader_leaves(body, crates):
             # data.get(0) is the same byte
             if e[1][1].endswith("<impl [T]>::get") and len(e[1][2]) == 2 and e[1][2][1] == ("const", 0):
                 return True
+        # slice pattern `[d, ..]`: the element at constant index 0 of the parameter
+        if e[0] == "path" and e[1] == vx.root_name(1) and tuple(e[2]) == ("[0]",):
+            return True
+        # split_first(): (&s[0], &s[1..])
+        if e[0] == "proj" and e[1][0] == "call" and e[1][1].endswith("<impl [T]>::split_first") and tuple(e[2]) == ("@Some", "0", "0"):
+            return True
         return False
+
+    def byte_at(e):
+        """k if e is the input byte at constant position k >= 1."""
+        e = strip_ref(e)
+        if e[0] == "path" and e[1] == vx.root_name(1) and len(e[2]) == 1 and isinstance(e[2][0], str) and \
+                e[2][0].startswith("[") and e[2][0][1:-1].isdigit():
+            return int(e[2][0][1:-1])
+        if e[0] == "proj" and e[1][0] == "call" and e[1][1].endswith("<impl [T]>::get") and tuple(e[2]) == ("@Some", "0") and \
+                len(e[1][2]) == 2 and e[1][2][1][0] == "const":
+            return e[1][2][1][1]
+        return None
     leaves = []
     for iv, path in enumerate_paths(body, vx, is_key, (0, 255)):
         blocks = [x for x in path if isinstance(x, int)]
@@ -288,6 +305,14 @@ def reader_leaves(body, crates):
                         order, extra = "be", 2
                 elif c[1].endswith("<impl [T]>::get") and extra == 0 and not (len(c[2]) == 2 and c[2][1] == ("const", 0)):
                     extra = 1
+            # bytes named by position (slice patterns): the value uses input bytes 1..=k
+            ks = [byte_at(x) for x in walk(val)]
+            ks = [k for k in ks if k]
+            if ks and extra < max(ks):
+                extra = max(ks)
+                if order is None and extra >= 2:
+                    # from_{be,le}_bytes([b1, b2]) was seen above; a manual shift/or form is not classified
+                    pass
         # rest offset
         off = rest_offset(pr, rest)
         leaves.append((iv[0], iv[1], kind, extra, order, off, first_tested(body, vx, blocks, is_key)))
@@ -323,6 +348,15 @@ def rest_offset(pr, rest):
         return inner + size
     if rest[0] == "path" and rest[1] == pr.vx.root_name(1) and not rest[2]:
         return 0
+    # slice pattern `[.., rest @ ..]`
+    if rest[0] == "path" and rest[1] == pr.vx.root_name(1) and len(rest[2]) == 1 and isinstance(rest[2][0], tuple) and \
+            rest[2][0][0] == "sub" and rest[2][0][3] and rest[2][0][2] == 0:
+        return rest[2][0][1]
+    from discharge import split_first_parts
+    sf = split_first_parts(rest)
+    if sf is not None and sf[2] == 1:
+        inner = rest_offset(pr, sf[0])
+        return None if inner is None else inner + sf[1]
     return None
 
 
